@@ -125,17 +125,6 @@ func normTokens(t []string) []string {
 	return out
 }
 
-// hasEscape reports a string token with a backslash: the language does not define escapes, the
-// canonical printer cannot reproduce such a literal.
-func hasEscape(toks []string) bool {
-	for _, t := range toks {
-		if strings.HasPrefix(t, "STR:") && strings.Contains(t, "\\") {
-			return true
-		}
-	}
-	return false
-}
-
 func answer(line string) string {
 	f := strings.Split(line, " ")
 	if len(f) < 2 || (f[0] != "parse" && f[0] != "parsev") {
@@ -165,7 +154,7 @@ func answer(line string) string {
 		// reprint fixed point and token fidelity
 		if tree, err := schema.ReadDump(p.dump); err != nil {
 			viol = append(viol, "dump-unreadable:"+strings.ReplaceAll(err.Error(), " ", "_"))
-		} else if p.errs == 0 && !hasEscape(p.toks) {
+		} else if p.errs == 0 {
 			canon := strings.Join(tree.Tokens(), " ")
 			q := parseText(canon)
 			if q.err != nil || q.dump != p.dump {
@@ -265,6 +254,12 @@ func genC15(seed uint64, tier, statsPath string) {
 		case k < 12:
 			text := schema.Layout(r, tree.TokensOpt(r), false) // comments may hold non-ASCII text
 			stats["valid-any-comment"]++
+			fmt.Fprintf(out, "parsev %s %s\n", hexOf(text), hexOf(tree.Dump()))
+		case k < 13:
+			// string literals with backslash sequences: recorded as written (no escapes in the language)
+			schema.EscapeStrings(r, tree)
+			text := schema.Layout(r, tree.TokensOpt(r), true)
+			stats["valid-escaped-strings"]++
 			fmt.Fprintf(out, "parsev %s %s\n", hexOf(text), hexOf(tree.Dump()))
 		case k < 17:
 			emit("token-mutated", schema.Layout(r, schema.MutateTokens(r, tree.TokensOpt(r)), true))
